@@ -16,13 +16,15 @@ from ahbicht.models.content_evaluation_result import ContentEvaluationResult, Co
 
 FMT = EdifactFormat.UTILMD
 FV = EdifactFormatVersion.FV2210
+FV_METHODS = EdifactFormatVersion.FV2310  # under this version vf/schedules.py registers evaluators written the way users write them (evaluate_<key> methods)
+current_fv: ContextVar[EdifactFormatVersion] = ContextVar("vf_current_fv", default=FV)
 current_cer: ContextVar[Optional[ContentEvaluationResult]] = ContextVar("vf_current_cer", default=None)
 _schema = ContentEvaluationResultSchema()
 
 
 def _provider():
     cer = current_cer.get()
-    return EvaluatableData(body=_schema.dump(cer) if cer is not None else {}, edifact_format=FMT, edifact_format_version=FV)
+    return EvaluatableData(body=_schema.dump(cer) if cer is not None else {}, edifact_format=FMT, edifact_format_version=current_fv.get())
 
 
 def configure_cer_based(extra=None):
